@@ -95,8 +95,10 @@ def _extract_guards(fn, spec, what):
                 events.append(("write", True))
             else:
                 raise Unrecognised(f"{what}: unknown `if not ...` test at line {s.lineno}")
-        elif isinstance(s, (ast.Assign, ast.AnnAssign, ast.Expr)):
+        elif isinstance(s, (ast.Assign, ast.AnnAssign, ast.Expr, ast.For)):
             st, c = stage_of(s)
+            if isinstance(s, ast.For) and not st:
+                raise Unrecognised(f"{what}: a loop outside the known stages at line {s.lineno}")
             if st:
                 for x in st:
                     events.append((x, False))
@@ -107,8 +109,6 @@ def _extract_guards(fn, spec, what):
     order = [e[0] for e in events]
     want = [x for x in ("parse", "transform", "changes", "diff", "write") if x in order]
     dedup = [x for i, x in enumerate(order) if x not in order[:i]]
-    # the original lines may be (re)read after the transform (xml): later `parse` events of an unguarded re-read are
-    # recorded by spec['reread'] and not counted as the pipeline's parse stage
     if dedup != want or order.count("write") != 1 or order.count("transform") != 1 or "parse" not in order:
         raise Unrecognised(f"{what}: stages out of the known order: {events}")
     g = []
